@@ -128,6 +128,14 @@ def dpOp (items : List Item) (ts : List String) : Option (Option String) :=
     | some W, some br =>
       some ((knapsackGo br (fun x => x.w) (fun x => x.v) W items).map showSel)
     | _, _ => none
+  | ["knapv", W, b] =>
+    -- value only (limits far beyond what the table model can execute): the optimum by the
+    -- specification `bruteOpt`; `c18_knapsack_value` proves it is the value `knapsackGo` returns
+    match W.toInt?, parseBrk b with
+    | some W, some _ =>
+      if W < 0 ∨ items.any (fun x => decide (x.w < 0)) then some none
+      else some (some s!"value={bruteOpt (fun x : Item => x.w) (fun x => x.v) items W} valid=true")
+    | _, _ => none
   | ["solv", m, o, b, seed] =>
     match m.toInt?, o.toNat?, parseBrk b, seed.toNat? with
     | some m, some o, some br, some seed =>
@@ -245,6 +253,40 @@ def graphOp (n : Nat) (edges : List (Nat × Nat)) (ts : List String) : Option (O
     | _ => none
   | _ => none
 
+/-! ### graph histories on ONE `Graph` value (`@ C18 graphh`)
+
+Operations `init c` (`g.Init(c)`), `node v`, `und a b` (`AddUndirectedEdge`), `arc a b` (`AddEdge`),
+`len`, `paths` (a `GetPaths` call whose policy accepts nothing: it only walks the node list),
+`cliques` (canonical `GetMaximalCliques`).  The state is the model of the construction API
+(`GMap`); a query is answered from the CURRENT state only. -/
+
+def histOp (g : GMap) (ts : List String) : Option (GMap × Option String) :=
+  match ts with
+  | ["init", c] => match c.toNat? with | some _ => some (gInit g, some "ok") | none => none
+  | ["node", v] => match v.toNat? with | some v => some (gAddNode g v, some "ok") | none => none
+  | ["und", a, b] =>
+    match a.toNat?, b.toNat? with
+    | some a, some b => if a = b then none else some (gAddUndirectedEdge g a b, some "ok")
+    | _, _ => none
+  | ["arc", a, b] =>
+    match a.toNat?, b.toNat? with
+    | some a, some b => if a = b then none else some (gAddEdge g a b, some "ok")
+    | _, _ => none
+  | ["len"] => some (g, some (toString (gKeys g).length))
+  | ["paths"] => some (g, some "ok")
+  | ["cliques"] =>
+    some (g, (maximalCliques (gNb g) (gKeys g)).map fun cs => showCliques (canonCliques cs))
+  | _ => none
+
+def runHist : GMap → Bool → List String → List String
+  | _, _, [] => []
+  | g, true, _ :: ls => "dead" :: runHist g true ls
+  | g, false, l :: ls =>
+    match histOp g (toks l) with
+    | none => "bad-op" :: runHist g false ls
+    | some (g', none) => "panic" :: runHist g' true ls
+    | some (g', some o) => o :: runHist g' false ls
+
 /-! ### case runner -/
 
 def runOps (f : List String → Option (Option String)) : Bool → List String → List String
@@ -271,6 +313,7 @@ def runCase (hdr : List String) (ops : List String) : List String :=
     match ints? rest with
     | some ks => if ks.Nodup then "ok" :: runOps (mapOp ks) false ops else badCase ops
     | none => badCase ops
+  | ["graphh"] => "ok" :: runHist [] false ops
   | "graph" :: n :: rest =>
     match n.toNat?, n.toNat?.bind (fun n => parseEdges n rest) with
     | some n, some es => "ok" :: runOps (graphOp n es) false ops
